@@ -106,17 +106,43 @@ fn id_text(len: usize) -> String {
   s
 }
 
+static mut TXID_PARSED: Option<[u8; 32]> = None;
+
+/// contract stub for `<Txid as FromStr>::from_str` (bitcoin / hex-conservative: not under contract
+/// here): any 64 hex digits denote some txid - the harness chooses which - or an error
+fn stub_txid_from_str(_s: &str) -> Result<Txid, bitcoin::hex::HexToArrayError> {
+  match unsafe { TXID_PARSED } {
+    Some(b) => Ok(Txid::from_byte_array(b)),
+    None => <[u8; 1] as bitcoin::hex::FromHex>::from_hex("zz").map(|_| Txid::all_zeros()),
+  }
+}
+
 fn from_str_len(len: usize) {
   let s = id_text(len);
+  // lengths below 66 never reach the txid parser; from 66 on it answers with a harness-chosen txid
+  // (the error answer is explored only for the short lengths, where it is cheap)
+  let parsed: Option<[u8; 32]> = if len >= 66 || kani::any() { Some(kani::any()) } else { None };
+  // natively (replay) the real hex parser runs: the text denotes the txid aa..aa
+  #[cfg(not(kani))]
+  let parsed: Option<[u8; 32]> = {
+    let _ = parsed;
+    Some([0xaa; 32])
+  };
+  unsafe { TXID_PARSED = parsed };
+  #[cfg(not(kani))]
+  eprintln!("REPLAY-INPUT: InscriptionId::from_str({s:?})");
   match s.parse::<InscriptionId>() {
     Ok(id) => {
       assert!(len >= 66, "C31.inscription_id.too_short_text_is_rejected");
-      assert!(id.txid.to_byte_array() == [0xaa; 32], "C31.inscription_id.txid_is_the_64_hex_digits");
+      assert!(Some(id.txid.to_byte_array()) == parsed, "C31.inscription_id.txid_is_the_parsed_64_hex_digits");
       assert!(id.index == if len == 66 { 1 } else { 11 }, "C31.inscription_id.index_is_the_decimal_after_i");
     }
     Err(e) => {
-      assert!(len < 66, "C27.inscription_id.well_formed_text_is_accepted");
-      assert!(matches!(e, ParseError::Length(l) if l == len), "C31.inscription_id.short_text_reports_its_length");
+      if len < 66 {
+        assert!(matches!(e, ParseError::Length(l) if l == len), "C31.inscription_id.short_text_reports_its_length");
+      } else {
+        assert!(parsed.is_none() && matches!(e, ParseError::Txid(_)), "C27.inscription_id.well_formed_text_is_accepted");
+      }
     }
   }
 }
@@ -125,6 +151,7 @@ macro_rules! from_str_len_harness {
   ($name:ident, $len:expr) => {
     #[cfg_attr(kani, kani::proof)]
     #[cfg_attr(kani, kani::unwind(70))]
+    #[cfg_attr(kani, kani::stub(<Txid as core::str::FromStr>::from_str, stub_txid_from_str))]
     pub fn $name() {
       from_str_len($len);
     }
@@ -136,35 +163,43 @@ macro_rules! from_str_len_harness {
 //# props: C31
 //# kind: bounded(one concrete ASCII string of length 0)
 //# fns: inscriptions::inscription_id::InscriptionId::from_str
+//# assume: <Txid as FromStr>::from_str (bitcoin crate hex parser) returns some txid or an error for the 64 hex digits (stub)
 //# timeout: 900
 from_str_len_harness!(c31_inscription_id_from_str_len_0, 0);
 
 //# props: C31
 //# kind: bounded(one concrete ASCII string of length 63)
 //# fns: inscriptions::inscription_id::InscriptionId::from_str
+//# assume: <Txid as FromStr>::from_str (bitcoin crate hex parser) returns some txid or an error for the 64 hex digits (stub)
 //# timeout: 900
 from_str_len_harness!(c31_inscription_id_from_str_len_63, 63);
 
 //# props: C31
 //# kind: bounded(one concrete ASCII string of length 64: a bare txid)
 //# fns: inscriptions::inscription_id::InscriptionId::from_str
+//# assume: <Txid as FromStr>::from_str (bitcoin crate hex parser) returns some txid or an error for the 64 hex digits (stub)
 //# timeout: 900
 from_str_len_harness!(c31_inscription_id_from_str_len_64, 64);
 
 //# props: C31
 //# kind: bounded(one concrete ASCII string of length 65: txid + separator, no index)
 //# fns: inscriptions::inscription_id::InscriptionId::from_str
+//# assume: <Txid as FromStr>::from_str (bitcoin crate hex parser) returns some txid or an error for the 64 hex digits (stub)
 //# timeout: 900
 from_str_len_harness!(c31_inscription_id_from_str_len_65, 65);
 
 //# props: C31
+//# tier: thorough
 //# kind: bounded(one concrete ASCII string of length 66: shortest well-formed id)
 //# fns: inscriptions::inscription_id::InscriptionId::from_str
+//# assume: <Txid as FromStr>::from_str (bitcoin crate hex parser) returns some txid or an error for the 64 hex digits (stub)
 //# timeout: 900
 from_str_len_harness!(c31_inscription_id_from_str_len_66, 66);
 
 //# props: C31
+//# tier: thorough
 //# kind: bounded(one concrete ASCII string of length 67)
 //# fns: inscriptions::inscription_id::InscriptionId::from_str
+//# assume: <Txid as FromStr>::from_str (bitcoin crate hex parser) returns some txid or an error for the 64 hex digits (stub)
 //# timeout: 900
 from_str_len_harness!(c31_inscription_id_from_str_len_67, 67);
